@@ -3,7 +3,7 @@ INSERT (or any positional statement) executed with execute / executemany."""
 from __future__ import annotations
 import ast
 from .src import norm, walk_no_nested
-from .pyutil import binding_sites, nearest_assignment, parents, resolve_value
+from .pyutil import binding_sites, nearest_assignment, parents, resolve_value, assignments_to
 from . import sql as S
 
 UNWRAP = {'_batch', 'enumerate', 'reversed', 'list', 'sorted', 'iter', 'tuple'}
@@ -40,6 +40,8 @@ def rows_of(func, pnode, many):
     if pnode is None:
         return [Row(elts=[], node=None)]
     e = pnode
+    if isinstance(e, ast.Name) and not many:
+        return _row_of_elem(func, e, _enclosing_for_gens(e, fn), e)
     if isinstance(e, ast.Name):
         sites = [s for s in binding_sites(fn, e.id) if s[0] in ('assign',)]
         rows = []
@@ -61,7 +63,13 @@ def rows_of(func, pnode, many):
         if not rows:
             kinds = [s[0] for s in binding_sites(fn, e.id)]
             return [Row(opaque=f'{e.id} ({",".join(kinds) or "unbound"})', node=e)]
-        return rows
+        uniq, seen = [], set()
+        for r in rows:
+            k = (id(r.node), tuple(id(x) for x in (r.elts or [])))
+            if k not in seen:
+                seen.add(k)
+                uniq.append(r)
+        return uniq
     return _rows_of_value(func, e, many, e)
 
 
@@ -91,25 +99,30 @@ def _row_of_elem(func, a, gens, node):
     if isinstance(a, ast.Dict) and all(isinstance(k, ast.Constant) for k in a.keys):
         return [Row(named={k.value: v for k, v in zip(a.keys, a.values)}, gens=gens, node=node)]
     if isinstance(a, ast.Name):
-        # a dict built locally: dict(x) + constant-key stores / setdefault
-        named = {}
-        base = None
-        found = False
-        for s in binding_sites(fn, a.id):
-            if s[0] == 'assign':
-                v = s[1]
-                if isinstance(v, ast.Call) and isinstance(v.func, ast.Name) and v.func.id == 'dict' and len(v.args) == 1:
-                    base = v.args[0]
-                    found = True
-                elif isinstance(v, ast.Dict) and all(isinstance(k, ast.Constant) for k in v.keys):
-                    named.update({k.value: x for k, x in zip(v.keys, v.values)})
-                    found = True
-                elif isinstance(v, (ast.Tuple,)):
-                    return [Row(elts=list(v.elts), gens=gens, node=node)]
-            elif s[0] in ('for', 'comp', 'param'):
-                return [Row(named={'*': a}, gens=gens, node=node, opaque=None)]
-        if found:
+        # a dict built locally: dict(x) + constant-key stores / setdefault (the nearest assignment before the use)
+        sites = binding_sites(fn, a.id)
+        if any(s[0] in ('for', 'comp', 'param') for s in sites) and not any(s[0] == 'assign' for s in sites):
+            return [Row(named={'*': a}, gens=gens, node=node)]
+        best = None
+        for stmt, v, tgt in assignments_to(fn, a.id):
+            if stmt.lineno <= node.lineno and (best is None or stmt.lineno > best[0].lineno):
+                best = (stmt, v)
+        if best is not None:
+            stmt, v = best
+            named = {}
+            base = None
+            if isinstance(v, ast.Call) and isinstance(v.func, ast.Name) and v.func.id == 'dict' and len(v.args) == 1:
+                base = v.args[0]
+            elif isinstance(v, ast.Dict) and all(isinstance(k, ast.Constant) for k in v.keys):
+                named.update({k.value: x for k, x in zip(v.keys, v.values)})
+            elif isinstance(v, ast.Tuple):
+                return [Row(elts=list(v.elts), gens=gens, node=node)]
+            else:
+                return [Row(opaque=norm(v)[:80], gens=gens, node=node)]
+            defaults = {}
             for n in walk_no_nested(fn):
+                if not (stmt.lineno <= getattr(n, 'lineno', 0) <= node.lineno):
+                    continue
                 if isinstance(n, ast.Assign):
                     for t in n.targets:
                         if isinstance(t, ast.Subscript) and isinstance(t.value, ast.Name) and t.value.id == a.id \
@@ -118,10 +131,14 @@ def _row_of_elem(func, a, gens, node):
                 if isinstance(n, ast.Call) and isinstance(n.func, ast.Attribute) and n.func.attr == 'setdefault' \
                         and isinstance(n.func.value, ast.Name) and n.func.value.id == a.id and n.args \
                         and isinstance(n.args[0], ast.Constant):
-                    named.setdefault(n.args[0].value, n.args[1] if len(n.args) > 1 else None)
+                    defaults[n.args[0].value] = n.args[1] if len(n.args) > 1 else ast.Constant(None)
             if base is not None:
                 named['*'] = base
-            return [Row(named=named, gens=gens, node=node)]
+                named['*defaults'] = defaults
+            else:
+                for k, d in defaults.items():
+                    named.setdefault(k, d)
+            return [Row(named=named, gens=gens + _enclosing_for_gens(stmt, fn), node=node)]
     return [Row(opaque=norm(a)[:80], gens=gens, node=node)]
 
 
@@ -179,6 +196,25 @@ class Binding:
         return self.site.func
 
 
+def _named_expr(row, nm):
+    """expression feeding `:nm` of a named row: an explicit store, or key `nm` of the copied base mapping."""
+    if nm in row.named:
+        return row.named[nm]
+    base = row.named.get('*')
+    if base is None:
+        return None
+    defaults = row.named.get('*defaults') or {}
+    if nm in defaults:
+        node = ast.Call(func=ast.Attribute(value=base, attr='get', ctx=ast.Load()),
+                        args=[ast.Constant(nm), defaults[nm]], keywords=[])
+    else:
+        node = ast.Subscript(value=base, slice=ast.Constant(nm), ctx=ast.Load())
+    ast.copy_location(node, base)
+    ast.fix_missing_locations(node)
+    node._parent = getattr(base, '_parent', None)
+    return node
+
+
 def _slot_kind(stmt, idxs):
     toks = [stmt.toks[k] for k in idxs]
     if len(toks) == 1 and toks[0].upper() == 'NULL':
@@ -224,7 +260,7 @@ def bind_statement(ctx, site, variant, row):
                 b.problems.append(f'row has {len(row.elts)} values, statement needs more (slot {i} {col})')
             pos += nq
         elif row.named is not None:
-            sl.exprs = [row.named.get(nm, row.named.get('*')) for nm in names]
+            sl.exprs = [_named_expr(row, nm) for nm in names]
         b.slots.append(sl)
     if row.elts is not None and pos != len(row.elts) and not any(isinstance(x, ast.Starred) for x in row.elts):
         b.problems.append(f'row has {len(row.elts)} values, statement has {pos} placeholders')
@@ -268,11 +304,9 @@ def _locality(ctx, b, sl):
             and isinstance(e.func.value, ast.Name) and e.func.value.id == 'lexidmap' and len(e.args) == 2 \
             and isinstance(e.args[1], ast.Name) and e.args[1].id == 'lexid':
         key = resolve_value(fn, e.args[0])
-        base = key
-        while isinstance(base, (ast.Subscript, ast.Attribute)):
-            base = base.value
-        if isinstance(base, ast.Name) and is_local_var(b.func, base.id, b.row):
-            return 'parent-local'
+        if isinstance(key, ast.Subscript) and isinstance(key.slice, ast.Constant) and key.slice.value == 'id' \
+                and isinstance(key.value, ast.Name) and is_local_var(b.func, key.value.id, b.row):
+            return 'parent-local'   # the element's own id, and the element is not external
         return 'cross'
     return 'cross'
 
@@ -292,3 +326,107 @@ def insert_bindings(ctx):
                     out.append(bind_statement(ctx, site, v, row))
         return out
     return ctx.repo.cache('insert_bindings', build)
+
+
+# ---------------------------------------------------------------------------
+# values that travel through lists of tuples
+
+def list_elements(func, e, depth=0):
+    """element expressions a list-valued expression can hold (literal elements, appended values, comprehension elt)."""
+    fn = func.node
+    if depth > 4:
+        return None
+    while isinstance(e, ast.Call) and isinstance(e.func, ast.Name) and e.func.id in UNWRAP | {'set', 'frozenset'} and e.args:
+        e = e.args[0]
+    if isinstance(e, (ast.List, ast.Tuple, ast.Set)):
+        return list(e.elts)
+    if isinstance(e, (ast.ListComp, ast.GeneratorExp, ast.SetComp)):
+        return [e.elt]
+    if isinstance(e, ast.Name):
+        out = []
+        found = False
+        for s in binding_sites(fn, e.id):
+            if s[0] == 'assign':
+                sub = list_elements(func, s[1], depth + 1)
+                if sub is not None:
+                    out.extend(sub)
+                    found = True
+        for n in walk_no_nested(fn):
+            if isinstance(n, ast.Call) and isinstance(n.func, ast.Attribute) and isinstance(n.func.value, ast.Name) \
+                    and n.func.value.id == e.id and n.args:
+                if n.func.attr in ('append', 'add'):
+                    out.append(n.args[0])
+                    found = True
+                elif n.func.attr in ('extend', 'update'):
+                    sub = list_elements(func, n.args[0], depth + 1)
+                    if sub is not None:
+                        out.extend(sub)
+                        found = True
+        return out if found else None
+    return None
+
+
+def _binding_gen(func, name, row):
+    own = list(row.gens) if row is not None else []
+    other = []
+    for n in walk_no_nested(func.node):
+        if isinstance(n, (ast.For, ast.AsyncFor)):
+            other.append((n.target, n.iter))
+        elif isinstance(n, ast.comprehension):
+            other.append((n.target, n.iter))
+    for gens in (own, other):      # the generators that enclose the row take precedence over same-named loops elsewhere
+        for tgt, it in reversed(gens):
+            if isinstance(tgt, ast.Name) and tgt.id == name:
+                return tgt, it, None
+            if isinstance(tgt, (ast.Tuple, ast.List)):
+                for i, x in enumerate(tgt.elts):
+                    if isinstance(x, ast.Name) and x.id == name:
+                        return tgt, it, i
+    return None
+
+
+def flow_sources(func, name, row, depth=0):
+    """expressions whose value the loop variable `name` takes, following lists of tuples:
+    returns a list of expr nodes, or None when the flow cannot be followed."""
+    if depth > 5:
+        return None
+    bg = _binding_gen(func, name, row)
+    if bg is None:
+        return None
+    tgt, it, idx = bg
+    batched = False
+    while isinstance(it, ast.Call) and isinstance(it.func, ast.Name) and it.func.id in UNWRAP and it.args:
+        if it.func.id == '_batch':
+            batched = True   # the loop variable is a sub-list of the argument, i.e. container-equivalent
+        if it.func.id == 'enumerate':
+            if idx == 0:
+                return None
+            # for i, x in enumerate(xs): x is element of xs
+            if isinstance(tgt, (ast.Tuple, ast.List)) and len(tgt.elts) == 2:
+                inner = tgt.elts[1]
+                if isinstance(inner, ast.Name) and inner.id == name:
+                    idx = None
+                else:
+                    return None
+        it = it.args[0]
+    containers = [it]
+    if isinstance(it, ast.Name) and _binding_gen(func, it.id, row) is not None \
+            and not any(s[0] == 'assign' for s in binding_sites(func.node, it.id)):
+        containers = flow_sources(func, it.id, row, depth + 1)
+        if containers is None:
+            return None
+    if batched and idx is None:
+        return containers
+    out = []
+    for c in containers:
+        elems = list_elements(func, c)
+        if elems is None:
+            return None
+        for el in elems:
+            if idx is None:
+                out.append(el)
+            elif isinstance(el, (ast.Tuple, ast.List)) and idx < len(el.elts):
+                out.append(el.elts[idx])
+            else:
+                return None
+    return out or None
